@@ -39,7 +39,7 @@ def run(chk, repo, tier):
     except AnalysisError as _e:
         _err = _e
     for _rule, _construct, _key, _ok, _detail, _where in _sub.obs:
-        if True:
+        if "secp256k1" not in _construct:
             chk.ob("C05.R4", _construct, f"[{_rule}] {_key}", _ok, _detail, _where)
     if _err is not None and all(o[3] for o in _sub.obs):
         raise _err
